@@ -24,7 +24,7 @@ fn spec(t: Tier) -> Spec {
     Spec {
         id: "C11",
         level: "exploration",
-        rule: format!("(1) every token sequence of length <= {} over the 16-token alphabet (and over a variant with -delete) that the reference grammar REJECTS must be rejected by find_main: non-zero status, a diagnostic, empty stdout, tree untouched; (2) for each operand-taking primary every string of <= k symbols over a per-primary alphabet is given as operand; where the reference validity predicate says 'definitely invalid' the vector must be rejected the same way; (3) every vector of (1),(2), every primary with its operand missing, every primary evaluated on an entry already removed by -delete, and -ls/-printf on entries owned by ids without passwd/group entries run under catch_unwind and must not panic; binary slice: vectors <= 3 tokens and a non-UTF-8 argument through the hooks-off binary (exit 101/134/signal = panic/abort; 10 s = hang). unwritable-output slice through the binary: -print, -print0, -printf (with and without a newline, with \\c), -ls with standard output = /dev/full / a pipe whose reader has gone, and -fprint, -fprint0, -fprintf writing to /dev/full — no panic, a non-zero ordinary status (or SIGPIPE), ENOSPC diagnosed; unwritable-standard-error slice: twelve commands that produce diagnostics (missing starting point, commands that cannot be started, a failing -delete, parse errors, per-file errors) with 2>/dev/full — no panic, the usual exit status; scale vectors through the binary: N nested (negated) parentheses, right-nested -o / comma groups, N '!' in a row, chains of N terms, N starting points, operands of N bytes for -name/-regex/-printf/-path, N in 100, 1000, 3000, 10^4, 3x10^4, 10^5 — must end with an ordinary exit status (0, or non-zero with a diagnostic); non-trivial = vector the reference classifies as invalid", glen(t)),
+        rule: format!("(1) every token sequence of length <= {} over the 16-token alphabet (and over a variant with -delete) that the reference grammar REJECTS must be rejected by find_main: non-zero status, a diagnostic, empty stdout, tree untouched; (2) for each operand-taking primary every string of <= k symbols over a per-primary alphabet is given as operand; where the reference validity predicate says 'definitely invalid' the vector must be rejected the same way; (3) every vector of (1),(2), every primary with its operand missing, every primary evaluated on an entry already removed by -delete, and -ls/-printf on entries owned by ids without passwd/group entries run under catch_unwind and must not panic; binary slice: vectors <= 3 tokens and a non-UTF-8 argument through the hooks-off binary (exit 101/134/signal = panic/abort; 10 s = hang). unwritable-output slice through the binary: -print, -print0, -printf (with and without a newline, with \\c), -ls with standard output = /dev/full / a pipe whose reader has gone, and -fprint, -fprint0, -fprintf writing to /dev/full — no panic, a non-zero ordinary status (or SIGPIPE), ENOSPC diagnosed; unwritable-standard-error slice: twelve commands that produce diagnostics (missing starting point, commands that cannot be started, a failing -delete, parse errors, per-file errors) with 2>/dev/full — no panic, the usual exit status; time-zone vectors: -newermt/-newerat/-newerct with wall-clock times inside a spring-forward gap or a fall-back overlap under five TZ rules, plus the %t/%T directives — no panic; scale vectors through the binary: N nested (negated) parentheses, right-nested -o / comma groups, N '!' in a row, chains of N terms, N starting points, operands of N bytes for -name/-regex/-printf/-path, N in 100, 1000, 3000, 10^4, 3x10^4, 10^5 — must end with an ordinary exit status (0, or non-zero with a diagnostic); non-trivial = vector the reference classifies as invalid", glen(t)),
         bound: json!({"grammar_len": glen(t), "operand_sweeps": sweeps(t).iter().map(|s| json!({"primary": s.primary, "alphabet": s.alphabet, "maxlen": s.maxlen})).collect::<Vec<_>>()}),
         assumptions: vec![
             "operands whose validity is debatable (valid in GNU but unsupported here, GNU-specific leniency) are executed for no-panic only".into(),
@@ -336,10 +336,11 @@ fn ere_invalid(s: &str) -> Option<&'static str> {
             }
             '(' => depth += 1,
             ')' => {
-                if depth == 0 {
-                    return None; // lone ')' is a literal in POSIX ERE; not judged
+                // a lone ')' is a literal in POSIX ERE (onig rejects it, GNU accepts it): it is
+                // passed over; only what follows can still make the pattern invalid
+                if depth > 0 {
+                    depth -= 1;
                 }
-                depth -= 1;
             }
             _ => {}
         }
@@ -347,6 +348,62 @@ fn ere_invalid(s: &str) -> Option<&'static str> {
     }
     if depth > 0 {
         Some("unclosed group")
+    } else {
+        None
+    }
+}
+
+/// The syntaxes that write groups as \( \): an unclosed \( or a \) that closes nothing is an error
+/// in every one of them (GNU regex: "Unmatched ( or \(" / "Unmatched ) or \)").
+fn bre_invalid(s: &str) -> Option<&'static str> {
+    let b: Vec<char> = s.chars().collect();
+    let mut depth = 0i32;
+    let mut i = 0;
+    while i < b.len() {
+        match b[i] {
+            '\\' => {
+                if i + 1 >= b.len() {
+                    return Some("trailing backslash");
+                }
+                match b[i + 1] {
+                    '(' => depth += 1,
+                    ')' => {
+                        if depth == 0 {
+                            return Some("\\) without an open group");
+                        }
+                        depth -= 1;
+                    }
+                    _ => {}
+                }
+                i += 2;
+                continue;
+            }
+            '[' => {
+                let mut j = i + 1;
+                if j < b.len() && b[j] == '^' {
+                    j += 1;
+                }
+                if j < b.len() && b[j] == ']' {
+                    j += 1;
+                }
+                while j < b.len() && b[j] != ']' {
+                    if b[j] == '[' && j + 1 < b.len() && matches!(b[j + 1], ':' | '.' | '=') {
+                        return None; // classes: not judged
+                    }
+                    j += 1;
+                }
+                if j >= b.len() {
+                    return Some("unterminated bracket expression");
+                }
+                i = j + 1;
+                continue;
+            }
+            _ => {}
+        }
+        i += 1;
+    }
+    if depth > 0 {
+        Some("unclosed \\( group")
     } else {
         None
     }
@@ -412,7 +469,7 @@ fn sweeps(t: Tier) -> Vec<Sweep> {
             alphabet: vec!["(", ")", "\\", "|", "*", "+", "?", "{", "}", "[", "]", "^", "$", "a", ".", "1", ","],
             maxlen: q(3, 4),
             extra: vec![],
-            invalid: if ty == "posix-extended" { ere_invalid } else { never },
+            invalid: if ty == "posix-extended" { ere_invalid } else { bre_invalid },
         });
     }
     v.push(Sweep { primary: "-iregex", prefix: vec![], alphabet: vec!["\\", "(", ")", "|", "[", "]", "a", "\u{e9}", "{", "}", "1", ","], maxlen: q(3, 4), extra: vec![], invalid: never });
@@ -789,6 +846,38 @@ fn run(ctx: &mut Ctx) {
     scale_vectors(ctx, &mut global);
     unwritable_output(ctx, &mut global);
     unwritable_stderr(ctx, &mut global);
+    timezone_vectors(ctx, &mut global);
+}
+
+/// -newerXt dates and the time-printing directives under time zones with daylight saving (POSIX
+/// rules, no tzdata needed): a wall-clock time that does not exist (spring forward) or exists twice
+/// (fall back) must not end find in a panic.
+fn timezone_vectors(ctx: &mut Ctx, global: &mut u64) {
+    let sbx = ctx.sbx.clone();
+    build_c01(&sbx);
+    let zones = ["CET-1CEST,M3.5.0,M10.5.0/3", "EST5EDT,M3.2.0,M11.1.0", "GMT0BST,M3.5.0/1,M10.5.0", "<+1345>-13:45", "UTC0"];
+    let dates = ["mar 30, 2025 02:30:00", "mar 30, 2025 01:30:00", "mar 09, 2025 02:30:00", "oct 26, 2025 02:30:00", "oct 26, 2025 01:30:00", "nov 02, 2025 01:30:00", "mar 30, 2025", "dec 31, 1969 23:59:59"];
+    for zone in zones {
+        for date in dates {
+            for prim in ["-newermt", "-newerat", "-newerct"] {
+                *global += 1;
+                if !ctx.mine(*global) {
+                    continue;
+                }
+                let got = crate::findrun::run_find_bin_env(&["r", prim, date, "-printf", "%t %TY-%Tm-%Td %TH:%TM %Tc\\n"], &sbx, None, &[("TZ", zone)]);
+                ctx.rep.evaluations += 1;
+                ctx.rep.nontrivial += 1;
+                ctx.rep.count("timezone_vectors", 1);
+                if got.code.is_err() || matches!(got.code, Ok(c) if c == 134) {
+                    ctx.rep.violation(
+                        &format!("C11 find panics on a date operand / time directive under a time zone with daylight saving [{prim}]"),
+                        format!("TZ={zone} find r {prim} {date:?} -printf '%t ...': {}", got.brief()),
+                        json!({"prop":"C11","tz":zone,"argv":["r", prim, date],"binary":true}),
+                    );
+                }
+            }
+        }
+    }
 }
 
 /// Diagnostics that cannot be written (standard error is /dev/full) must not turn into a panic;
